@@ -477,6 +477,9 @@ m('index-join-over-filtered-right-plan', ['C11', 'C06'], SO, """		if seqScan, ok
 		}
 """, """		isRightPlainScan = rightScan != nil
 """, ['C11-R6 [(*planner/optimizer.SelingerOptimizer).findBestJoinInner:index-join-only-over-an-unfiltered-right-scan]'])
+m('tmp-tuple-page-free-space-check-wraps', ['C11', 'C15'], 'lib/materialization/tmp_tuple_page.go', """	if freeOffset < needSize+uint32(offsetFreeSpace+4) {
+""", """	if freeOffset-needSize < uint32(offsetFreeSpace+4) {
+""", ['C15-R6 [(*materialization.TmpTuplePage).Insert:unsigned-difference-compared'])
 # drop the one that needs a helper that does not exist
 M = [x for x in M if x['id'] != 'insert-executor-unlocks-early']
 os.chdir(os.path.dirname(os.path.abspath(__file__)) + '/..')
